@@ -278,7 +278,7 @@ MOD_KINDS = ("B^n-1", "crandall", "crandall", "B^(n-1)", "B^(n-1)+1", "top-bit-o
 
 
 def modulus(rng, n, bw, odd=False, kinds=None):
-    """(label, m) with B^(n-1) <= m < B^n, n >= 1"""
+    """(label, m) with max(2, B^(n-1)) <= m < B^n, n >= 1"""
     B = 1 << bw
     top = 1 << (bw * n)
     lo = top >> bw
@@ -331,7 +331,9 @@ def modulus(rng, n, bw, odd=False, kinds=None):
     if odd and m % 2 == 0:
         m |= 1
         k += "|1"
-    if not (lo <= m < top) or m < 1:
+    if m == 1:                                   # the property quantifies over moduli > 1
+        m, k = (3 if odd else 2), "tiny"
+    if not (lo <= m < top) or m < 2:
         raise Harness("modulus generator: %s n=%d" % (k, n))
     return k, m
 
@@ -376,6 +378,8 @@ def below(rng, m, n, bw, kind=None, nz=False):
 # ----------------------------------------------------------------------------------------------
 
 SPEC = {
+    # zzPowerMod with exactly the declared stack whatever the modulus (unit_probe)
+    "zzPowerMod@deep": ("v", "o:c:n i:a:n z:n i:b:m z:m i:mod:n s:L.zzPowerMod_deep(n,m)"),
     # ww.h
     "wwCopy": ("v", "o:b:n i:a:n z:n"),
     "wwSwap": ("v", "x:a:n x:b:n z:n"),
@@ -428,9 +432,7 @@ SPEC = {
     "zzSubMulW": ("w", "x:b:n i:a:n z:n w:w"),
     "zzMul": ("v", "o:c:n+m i:a:n z:n i:b:m z:m s:L.zzMul_deep(n,m)"),
     "zzSqr": ("v", "o:b:2*n i:a:n z:n s:L.zzSqr_deep(n)"),
-    # zzSqrt_deep() is too small on the current tree (counts words as octets): value cases use a
-    # sufficient stack, the declared size is exercised by unit_probe
-    "zzSqrt": ("b", "o:b:(n+1)//2 i:a:n z:n s:max(L.zzSqrt_deep(n),W*(2*((n+1)//2)+1)+L.zzDiv_deep(n,(n+1)//2))"),
+    "zzSqrt": ("b", "o:b:(n+1)//2 i:a:n z:n s:L.zzSqrt_deep(n)"),
     "zzDivW": ("w", "o:q:n i:a:n z:n w:w"),
     "zzModW": ("w", "i:a:n z:n w:w"),
     "zzModW2": ("w", "i:a:n z:n w:w"),
@@ -463,16 +465,13 @@ SPEC = {
     "zzRedBarr": ("v", "x:a:2*n i:mod:n z:n i:barr_param:n+2 s:L.zzRedBarr_deep(n)"),
     "zzRedMont": ("v", "x:a:2*n i:mod:n z:n w:mont_param s:L.zzRedMont_deep(n)"),
     "zzRedCrandMont": ("v", "x:a:2*n i:mod:n z:n w:mont_param s:L.zzRedCrandMont_deep(n)"),
-    # powers.  zzPowerMod_deep() omits zmCreate_keep() on the current tree: value cases use a sufficient
-    # stack, the declared size is exercised by unit_probe
-    "zzPowerMod": ("v", "o:c:n i:a:n z:n i:b:m z:m i:mod:n "
-                        "s:max(L.zzPowerMod_deep(n,m),W*n+L.zmCreate_keep(W*n)+max(L.zmCreate_deep(W*n),"
-                        "L.qrPower_deep(n,m,L.zmCreate_deep(W*n)))+W*(8*n+16))"),
+    # powers.  Exactly zzPowerMod_deep(n, m) octets for odd moduli.  For even moduli zmCreate() selects the Barrett
+    # ring, whose zmMulBarr_deep()/zmSqrBarr_deep() (zm.c) omit the 2n words of `prod`, so zmCreate_deep() and with it
+    # zzPowerMod_deep() are 2n words short on the current tree: value cases add those 2n words, the declared size is
+    # exercised by unit_probe in a forked child
+    "zzPowerMod": ("v", "o:c:n i:a:n z:n i:b:m z:m i:mod:n s:L.zzPowerMod_deep(n,m)+(0 if mod%2 else 2*W*n)"),
     "zzPowerModW": ("w", "w:a w:b w:mod s:L.zzPowerModW_deep()"),
 }
-# the same two functions with exactly the declared stack (unit_probe)
-SPEC["zzSqrt@deep"] = ("b", "o:b:(n+1)//2 i:a:n z:n s:L.zzSqrt_deep(n)")
-SPEC["zzPowerMod@deep"] = ("v", "o:c:n i:a:n z:n i:b:m z:m i:mod:n s:L.zzPowerMod_deep(n,m)")
 
 
 class Args(dict):
@@ -647,8 +646,6 @@ ORACLE = {
     "zzPowerMod": lambda A: {"c": pow(A.a, A.b, A.mod), "_lt": {"c": A.mod}},
     "zzPowerModW": lambda A: {"ret": pow(A.a, A.b, A.mod), "_ltret": A.mod},
 }
-ORACLE["zzSqrt@deep"] = ORACLE["zzSqrt"]
-ORACLE["zzPowerMod@deep"] = ORACLE["zzPowerMod"]
 
 # aliasing the headers allow: tuples of (x, y) = "x is passed the same pointer as y"
 _C_AB = [(), (("c", "a"),), (("c", "b"),), (("b", "a"),), (("c", "a"), ("b", "a"))]
@@ -668,12 +665,25 @@ ALIAS = {
     "zzDoubleMod": _B_A, "zzHalfMod": _B_A, "zzMulMod": [(), (("b", "a"),)],
 }
 
-ORACLE["zzSubMulW"] = lambda A: R(
-    ret=int(A.b < A.a * A.w), b=(A.b - A.a * A.w) % _bn(A, A.n),
-    # the multi-word meaning of the borrow word (cf. the identity stated for zzSub): checked separately so that
-    # a wrong borrow word is seen even where the header's flag formula is not met
-    _rel=lambda ret, outs: None if outs["b"] - ret * _bn(A, A.n) == A.b - A.a * A.w else
-    ("borrow-identity", "b' - borrow*B^n != b - a*w"))
+
+# Carry / borrow words.  The headers say "\\return Слово переноса / заема": the returned word is the multi-precision
+# carry (borrow) that makes   c + ret * B^n == a + b   (resp.  c - ret * B^n == a - b)   hold — the identity zz.h spells
+# out for zzAdd and zzSub.  Given the n output words the identity determines ret uniquely; it implies the boolean
+# shorthand of the \\code blocks ("borrow <- (a < w)", "carry <- (b < a * w)") whenever the borrow is 0 or 1, and it
+# is the stronger statement where the shorthand is inexact: zzSubMulW (borrow word up to B - 1) and the W-functions
+# with n == 0 (zzSubW(.., 0, w) returns w, exactly as zzAddW(.., 0, w) does).  The classes "borrow-word>1" and "n=0"
+# stay in the keys.
+
+def _borrow(A, x):
+    """(x mod B^n, borrow word) for the exact difference x"""
+    Bn = _bn(A, A.n)
+    return x % Bn, (x % Bn - x) // Bn
+
+
+ORACLE["zzPowerMod@deep"] = ORACLE["zzPowerMod"]
+ORACLE["zzSubW"] = lambda A: R(b=_borrow(A, A.a - A.w)[0], ret=_borrow(A, A.a - A.w)[1])
+ORACLE["zzSubW2"] = lambda A: R(a=_borrow(A, A.a - A.w)[0], ret=_borrow(A, A.a - A.w)[1])
+ORACLE["zzSubMulW"] = lambda A: R(b=_borrow(A, A.b - A.a * A.w)[0], ret=_borrow(A, A.b - A.a * A.w)[1])
 
 
 # ----------------------------------------------------------------------------------------------
@@ -1196,8 +1206,6 @@ def gen_ww(t, f, n, i):
     elif f in ("wwGetBits", "wwSetBits"):
         pos = _bitpos(rng, n, bw)
         width = rng.choice((0, 1, 2, bw // 2, bw - 1, bw, bw, rng.randrange(bw + 1)))
-        if width == 0 and pos % bw == 0:
-            width = 1          # width 0 at a word boundary reads a[W_OF_B(pos)]: unit_probe holds that case
         nn = (pos + width + bw - 1) // bw
         a = val(rng, nn, bw)[1]
         A = {"a": a, "n": nn, "pos": pos, "width": width}
@@ -1578,10 +1586,7 @@ def unit_zz_gcd(ctx):
             n = t.length(i)
             A, cls, keycls = gen_zz_gcd(t, f, n, i)
             al = t.pick_alias(f, i, lambda al: not al or (A["m"] == A["n"] and cls.endswith("equal")))
-            # zzExGCD aborts on an internal ASSERT for many admissible pairs on the current tree: forked child
-            if f == "zzExGCD" and i % 4:
-                continue                 # a forked child per case is expensive: a quarter of the count
-            t.drive(f, A, cls, al, keycls, isolate=20 if f == "zzExGCD" else 0)
+            t.drive(f, A, cls, al, keycls)
     t.finish()
 
 
@@ -1633,19 +1638,19 @@ def gen_zz_mod(t, f, n, i):
     elif f == "zzMulWMod":
         A["w"] = word(rng, bw)
     elif f in ("zzInvMod", "zzDivMod", "zzAlmostInvMod"):
-        # a == 0 never returns from zzDivMod/zzInvMod on the current tree (see unit_probe) and violates \pre of
-        # zzAlmostInvMod; for mod == 1 no other a exists
-        if mod == 1:
-            mod = A["mod"] = 3
-            a = a % 3
         if k == 5:
             g = rng.choice((3, 5, 7, 9, 15, 255))
             if mod % g == 0 and mod > g:
                 a = g * max(rng.randrange(mod // g), 1)
-        if a == 0:
-            a = 1
+        if k == 6 and f != "zzAlmostInvMod":
+            a = 0                                                            # gcd(0, mod) = mod != 1: b <- 0
+        if a == 0 and f == "zzAlmostInvMod":
+            a = 1                                                            # \pre 0 < a
         A["a"] = a
-        if math.gcd(a, mod) != 1:
+        if a == 0:
+            keycls = "a=0"
+            cls = "zz_mod/a=0"
+        elif math.gcd(a, mod) != 1:
             keycls = "gcd!=1"
             cls = "zz_mod/gcd!=1"
         if f == "zzDivMod":
@@ -1679,8 +1684,6 @@ def rand_cases(t, per):
         for i in range(per):
             n = max(t.length(i), 1)
             lm, mod = modulus(rng, n, bw)
-            if f == "zzRandNZMod" and mod == 1:
-                mod = 2                                                      # \pre mod != 1
             l = mod.bit_length()
             no = (l + 7) // 8
             k = rng.randrange(6)
@@ -1818,7 +1821,8 @@ def gen_zz_pow(t, f, n, i):
         mod = word(rng, bw, nz=True)
         a = rng.choice((0, 1, mod - 1, mod, (mod + 1) % B, B - 1, rng.randrange(mod), word(rng, bw)))
         b = rng.choice((0, 0, 1, 1, 2, 3, 4, 7, 8, B - 1, B // 2, word(rng, bw), rng.getrandbits(bw)))
-        keycls = "mod=1" if mod == 1 else "a>=mod" if a >= mod else None
+        mod = max(mod, 2)
+        keycls = "a>=mod" if a >= mod else None
         cls = "zz_pow/w-" + ("b=0" if b == 0 else "b=1" if b == 1 else keycls or "a<mod")
         return {"a": a, "b": b, "mod": mod}, cls, keycls
     n = max(n, 1)
@@ -1828,7 +1832,7 @@ def gen_zz_pow(t, f, n, i):
     lb, b = val(rng, m, bw)
     if i % 9 == 0:
         a, b, la = 0, 0, "0^0"
-    keycls = "mod=1" if mod == 1 else None
+    keycls = None
     cls = "zz_pow/" + (la if la == "0^0" else "b=0" if b == 0 else ("mod-odd-" if mod % 2 else "mod-even-") + lm)
     return {"a": a, "n": n, "b": b, "m": m, "mod": mod}, cls, keycls
 
@@ -1838,8 +1842,7 @@ def unit_zz_pow(ctx):
     t = T(ctx)
     for i in range(ctx.params["per"]):
         A, cls, keycls = gen_zz_pow(t, "zzPowerMod", t.length(i), i)
-        # mod = 1 with b = 0 aborts on an ASSERT on the current tree: forked child for mod = 1
-        t.drive("zzPowerMod", A, cls, (), keycls, isolate=20 if A["mod"] == 1 else 0)
+        t.drive("zzPowerMod", A, cls, (), keycls)
     for i in range(ctx.params["per"] * 4):
         A, cls, keycls = gen_zz_pow(t, "zzPowerModW", 1, i)
         t.drive("zzPowerModW", A, cls, (), keycls)
@@ -1847,40 +1850,71 @@ def unit_zz_pow(ctx):
 
 
 # ----------------------------------------------------------------------------------------------
-# probes: single admissible cases that the value units must avoid because the library does not survive
-# them on the current tree (each would otherwise cost a worker restart, or never return)
+# regression cases: one literal witness per defect this check demonstrated on the pinned tree (all repaired in
+# /repo since), under a stable class label regress/<what>; the keys are the ones the value streams produce
 # ----------------------------------------------------------------------------------------------
 
-PROBES = ("zzSqrt-deep", "zzPowerMod-deep", "wwGetBits-width0", "wwSetBits-width0", "zzInvMod-a0", "zzDivMod-a0",
-          "zzInvMod-mod1")
+def regress_cases(bw):
+    B = 1 << bw
+    crand = B * B - B + 3                                    # ff..ff 00..03: odd, not of Crandall form
+    cm = B * B - 189                                         # Crandall form
+    out = []
+    for k in (1, 2, 3, 5, 7, B - 1, B * B - 1):
+        out.append(("zzRedMont", {"a": k * crand, "mod": crand, "n": 2, "mont_param": (-pow(crand, -1, B)) % B},
+                    "mont-a=k*mod", "a=k*mod", ()))
+        out.append(("zzRedCrandMont", {"a": k * cm, "mod": cm, "n": 2, "mont_param": (-pow(cm, -1, B)) % B},
+                    "mont-a=k*mod", "a=k*mod", ()))
+    out += [
+        ("zzAddWMod", {"a": 1, "w": 1, "mod": 2, "n": 1}, "addwmod-a+w=mod", "a+w=mod", ()),
+        ("zzAddWMod", {"a": B - 2, "w": B - 1, "mod": 2 * B - 3, "n": 2}, "addwmod-a+w=mod", "a+w=mod", (("b", "a"),)),
+        ("zzInvMod", {"a": 0, "mod": 7, "n": 1}, "inv-a=0", "a=0", ()),
+        ("zzDivMod", {"divident": 3, "a": 0, "mod": 7, "n": 1}, "inv-a=0", "a=0", ()),
+        ("zzInvMod", {"a": 0, "mod": B + 1, "n": 2}, "inv-a=0", "a=0", ()),
+        ("zzInvMod", {"a": 3, "mod": 15, "n": 1}, "inv-gcd!=1", "gcd!=1", ()),
+        ("zzDivMod", {"divident": 2, "a": 5, "mod": 15, "n": 1}, "inv-gcd!=1", "gcd!=1", ()),
+        ("zzAlmostInvMod", {"a": 3, "mod": 15, "n": 1}, "inv-gcd!=1", "gcd!=1", ()),
+        ("zzExGCD", {"a": 2, "n": 1, "b": 1, "m": 1}, "exgcd-operand-1", None, ()),
+        ("zzExGCD", {"a": 1, "n": 1, "b": B - 1, "m": 1}, "exgcd-operand-1", None, ()),
+        ("zzExGCD", {"a": 1, "n": 13, "b": 0x13ec57714b4c1b00 % B or 12, "m": 1}, "exgcd-operand-1", None, ()),
+        ("zzExGCD", {"a": (1 << (8 * bw + bw - 1)) | (1 << (3 * bw)), "n": 9, "b": 1, "m": 9}, "exgcd-operand-1", None, ()),
+        ("zzExGCD", {"a": (1 << (7 * bw + bw - 2)) | (1 << (3 * bw + 22)) | 1, "n": 8, "b": 1 << (bw + 9), "m": 8},
+         "exgcd-small-vs-large", None, ()),
+        ("zzJacobi", {"a": 2, "n": 1, "b": 3 * B + 5, "m": 2}, "jacobi-n<m", "n<m", ()),
+        ("zzJacobi", {"a": 0, "n": 0, "b": 3 * B + 5, "m": 2}, "jacobi-n<m", "n<m", ()),
+        ("zzSqrt", {"a": B ** 3 - 1, "n": 3}, "declared-deep", None, ()),
+        ("zzSqrt", {"a": B ** 20 - 1, "n": 20}, "declared-deep", None, ()),
+        ("zzPowerMod", {"a": 3, "n": 1, "b": 5, "m": 1, "mod": 7}, "declared-deep", None, ()),
+        ("zzPowerMod", {"a": 3, "n": 4, "b": 5, "m": 1, "mod": B ** 4 - 189}, "declared-deep", None, ()),
+        ("zzPowerMod", {"a": 3, "n": 15, "b": 0x267c7f831e5942de % B, "m": 1, "mod": B ** 14 + 1}, "declared-deep", None, ()),
+        ("zzPowerModW", {"a": B - 1, "b": 1, "mod": B // 2}, "powermodw-a>=mod", "a>=mod", ()),
+        ("wwGetBits", {"a": 5, "n": 1, "pos": bw, "width": 0}, "bits-width=0", "width=0", ()),
+        ("wwSetBits", {"a": 5, "n": 1, "pos": bw, "width": 0, "val": 1}, "bits-width=0", "width=0", ()),
+        ("wwSetBits", {"a": 0, "n": 1, "pos": 5, "width": 0, "val": 3}, "bits-width=0", "width=0", ()),
+        ("wwSetBits", {"a": B * B - 1, "n": 2, "pos": bw - 2, "width": 4, "val": 0}, "bits-straddle", "straddle", ()),
+        ("zzSubMulW", {"b": 0, "a": B - 1, "n": 1, "w": B - 1}, "borrow-word", "borrow-word>1", ()),
+        ("zzSubW", {"a": 0, "n": 0, "w": 5}, "borrow-word", "n=0", ()),
+        ("zzSubW2", {"a": 0, "n": 0, "w": 5}, "borrow-word", "n=0", ()),
+        ("zzAddW", {"a": 0, "n": 0, "w": 5}, "borrow-word", "n=0", ()),
+        ("zzAddW2", {"a": 0, "n": 0, "w": 5}, "borrow-word", "n=0", ()),
+    ]
+    return out
 
 
 def unit_probe(ctx):
+    """what still needs a forked child on the current tree: zzPowerMod with an even modulus (Barrett ring) and a stack
+    of exactly zzPowerMod_deep(n, m) octets overruns the stack (see SPEC["zzPowerMod"])"""
     t = T(ctx)
-    bw, B = t.bw, t.B
-    which = ctx.params["probe"]
-    if which == "zzSqrt-deep":
-        # scratch of exactly zzSqrt_deep(n) octets
-        for n in (3,):
-            t.drive("zzSqrt", {"a": (1 << (bw * n)) - 1, "n": n}, "probe/declared-deep", (), "declared-deep", spec="zzSqrt@deep", isolate=20)
-    elif which == "zzPowerMod-deep":
-        # scratch of exactly zzPowerMod_deep(n, m) octets
-        for n, mod in ((1, 7),):
-            t.drive("zzPowerMod", {"a": 3, "n": n, "b": 5, "m": 1, "mod": mod}, "probe/declared-deep", (),
-                    "declared-deep", spec="zzPowerMod@deep", isolate=20)
-    elif which == "wwGetBits-width0":
-        # width = 0 at a word boundary: W_OF_B(pos + width) = 1 word reserved
-        t.drive("wwGetBits", {"a": 5, "n": 1, "pos": bw, "width": 0}, "probe/width=0-at-word-boundary", (), "width=0", isolate=20)
-    elif which == "wwSetBits-width0":
-        t.drive("wwSetBits", {"a": 5, "n": 1, "pos": bw, "width": 0, "val": 1}, "probe/width=0-at-word-boundary", (), "width=0", isolate=20)
-    else:
-        # a = 0 is admissible (a < mod) and the header promises b <- 0 when gcd(a, mod) != 1; mod = 1 is an odd modulus
-        f = which.split("-")[0]
-        mod = 1 if which.endswith("mod1") else 7
-        A = {"a": 0, "mod": mod, "n": 1}
-        if f == "zzDivMod":
-            A["divident"] = 3 % mod
-        t.drive(f, A, "probe/a=0", (), "mod=1" if mod == 1 else "a=0", isolate=3)
+    B = t.B
+    t.drive("zzPowerMod", {"a": 3, "n": 15, "b": 0x267c7f831e5942de % B, "m": 1, "mod": B ** 14}, "probe/declared-deep-even-mod",
+            (), "declared-deep,even-mod", spec="zzPowerMod@deep", isolate=20)
+    t.finish()
+
+
+def unit_regress(ctx):
+    selftest()
+    t = T(ctx)
+    for f, A, label, keycls, alias in regress_cases(t.bw):
+        t.drive(f, A, "regress/" + label, alias, keycls)
     t.finish()
 
 
@@ -1896,7 +1930,10 @@ REQUIRED_CLASSES = (
     "zz_add/max-carry", "zz_div/a=q*b+(b-1)", "zz_div/top-words-equal", "zz_div/n<m", "zz_div/sqrt-x^2",
     "zz_gcd/fibonacci", "zz_gcd/powers-of-two", "zz_gcd/equal", "zz_gcd/coprime", "zz_gcd/zero", "zz_gcd/jacobi-a=k*b",
     "zz_mod/mod-1", "zz_mod/crandall", "zz_mod/mod-top-word-zero", "zz_mod/gcd!=1", "zz_mod/rand-never-below-mod",
-    "zz_red/a=k*mod", "zz_red/a=mod*R-1", "zz_red/0", "zz_pow/0^0", "zz_pow/w-b=1",
+    "zz_red/a=k*mod", "zz_red/a=mod*R-1", "zz_red/0", "zz_pow/0^0", "zz_pow/w-b=1", "zz_mod/a=0", "ww/bits-width=0",
+    "regress/mont-a=k*mod", "regress/addwmod-a+w=mod", "regress/inv-a=0", "regress/inv-gcd!=1", "regress/exgcd-operand-1",
+    "regress/exgcd-small-vs-large", "regress/jacobi-n<m", "regress/declared-deep", "regress/powermodw-a>=mod",
+    "regress/bits-width=0", "regress/bits-straddle", "regress/borrow-word", "probe/declared-deep-even-mod",
 )
 
 RULE = ("one case = one call of one function (its fast edition too where there is one) on operands drawn from a boundary "
@@ -1907,9 +1944,11 @@ ASSUMPTIONS = [
     "the returned word holds the last B_PER_W displaced bits",
     "zzRandMod/zzRandNZMod: only what the header promises is judged (flag; a in range when TRUE; bounded requests), not the "
     "way generator octets are consumed",
-    "zzSqrt and zzPowerMod value cases use a sufficient scratch size because their declared _deep() is too small on the "
-    "current tree; the declared size is exercised separately (unit_probe)",
-    "zzInvMod/zzDivMod with a = 0 are exercised only under a 5 s watchdog in a forked child (unit_probe)",
+    "carry / borrow words are judged by the multi-precision identity (c + ret*B^n == a + b, c - ret*B^n == a - b) that the "
+    "headers' '\\return carry/borrow word' implies, not by the boolean shorthand of the \\code block (zzSubMulW; n == 0)",
+    "moduli are > 1 (the property's quantifier); zzJacobi still sees b = 1",
+    "zzPowerMod value cases with an even modulus add 2n words to zzPowerMod_deep() (Barrett ring deep is short in zm.c); "
+    "the declared size is exercised in a forked child (unit_probe)",
     "word.h macros, zzMulADK (declared, not defined in the library) are not driven",
 ]
 
@@ -1924,8 +1963,8 @@ def jobs(tier, scale=1.0):
     def add(unit, **p):
         J.append({"unit": "c05_zz:" + unit, "params": p})
     step = 1 if scale >= 1 else max(1, int(round(1 / scale)))
-    for p in PROBES:
-        add("unit_probe", probe=p)
+    add("unit_probe")
+    add("unit_regress")
     for k in range(4):
         add("unit_zz_gcd", chunk=k, per=N(800, 8000))
     for k in range(4):
